@@ -41,7 +41,7 @@ def main():
     sh("git -C /repo worktree remove --force %s" % scratch)
     r = sh("git -C /repo worktree add --detach %s HEAD" % scratch)
     try:
-        r = sh("git apply %s/patch.diff" % mdir, cwd=scratch)
+        r = sh("git apply --3way %s/patch.diff && git reset -q" % mdir, cwd=scratch)
         res["patch_applies"] = (r.returncode == 0)
         if r.returncode != 0:
             res["error"] = r.stdout[-500:]; raise SystemExit
@@ -111,7 +111,7 @@ def main():
         res["demo_without_change_rc"] = ro.returncode; res["demo_without_change_tail"] = ro.stdout[-300:]
         # 3. the check against the patched tree
         if check_cmd:
-            sh("git apply %s/patch.diff" % mdir, cwd=scratch)
+            sh("git apply --3way %s/patch.diff && git reset -q" % mdir, cwd=scratch)
             e = dict(os.environ); e["PSV_REPO"] = scratch
             rc = sh(check_cmd, cwd=V, env=e)
             res["check_cmd"] = check_cmd; res["check_rc"] = rc.returncode
